@@ -106,50 +106,51 @@ theorem closedB_append {a b : List Instr} (ha : closedB a = true) (hb : closedB 
     cases i <;> simp_all [closedB]
 
 /-- `code` is what remains of `rest` (all of it, or — `identCheck` giving up — from its first `catchPS` on) with
-soft, closed blocks of instructions pushed in front -/
-def CodeExt (rest code : List Instr) : Prop :=
-  ∃ pushed suf, code = pushed ++ suf ∧ (suf = rest ∨ suf = rest.dropWhile notCatchPS) ∧
+soft, closed blocks of instructions pushed in front; `full` is the code before the step -/
+def CodeExt (full rest code : List Instr) : Prop :=
+  ∃ pushed suf, code = pushed ++ suf ∧
+    (suf = rest ∨ ∃ top, full = .identCheck top :: rest ∧ suf = rest.dropWhile notCatchPS) ∧
     (∀ i ∈ pushed, softI i = true) ∧ closedB pushed = true
 
-@[simp] theorem CodeExt.refl (rest : List Instr) : CodeExt rest rest := ⟨[], rest, rfl, .inl rfl, by simp, rfl⟩
+@[simp] theorem CodeExt.refl (full rest : List Instr) : CodeExt full rest rest := ⟨[], rest, rfl, .inl rfl, by simp, rfl⟩
 
-theorem CodeExt.dropPS (rest : List Instr) (f : Instr → Bool) (hf : ∀ i, f i = notCatchPS i) :
-    CodeExt rest (rest.dropWhile f) := by
+theorem CodeExt.dropPS {full : List Instr} (rest : List Instr) (f : Instr → Bool) (hf : ∀ i, f i = notCatchPS i) {top : Entry}
+    (hfull : full = .identCheck top :: rest) : CodeExt full rest (rest.dropWhile f) := by
   have : f = notCatchPS := funext hf
   subst this
-  exact ⟨[], _, rfl, .inr rfl, by simp, rfl⟩
+  exact ⟨[], _, rfl, .inr ⟨top, hfull, rfl⟩, by simp, rfl⟩
 
-theorem CodeExt.cons {rest l : List Instr} {i : Instr} (hi : softI i = true ∧ blockI i = false) (h : CodeExt rest l) :
-    CodeExt rest (i :: l) := by
+theorem CodeExt.cons {full rest l : List Instr} {i : Instr} (hi : softI i = true ∧ blockI i = false) (h : CodeExt full rest l) :
+    CodeExt full rest (i :: l) := by
   obtain ⟨p, s, rfl, hs, hp, hc⟩ := h
   exact ⟨i :: p, s, rfl, hs, by simpa [hi.1] using hp, by rw [closedB_cons_plain hi.2]; exact hc⟩
 
-theorem CodeExt.append {rest l d : List Instr} (hd : ∀ i ∈ d, softI i = true ∧ blockI i = false) (h : CodeExt rest l) :
-    CodeExt rest (d ++ l) := by
+theorem CodeExt.append {full rest l d : List Instr} (hd : ∀ i ∈ d, softI i = true ∧ blockI i = false) (h : CodeExt full rest l) :
+    CodeExt full rest (d ++ l) := by
   obtain ⟨p, s, rfl, hs, hp, hc⟩ := h
   refine ⟨d ++ p, s, by simp, hs, ?_, ?_⟩
   · intro t ht; simp at ht; rcases ht with ht | ht; exact (hd t ht).1; exact hp t ht
   · rw [closedB_append_plain (fun i hi => (hd i hi).2)]; exact hc
 
-theorem CodeExt.consPS {rest l : List Instr} (top : Entry) (h : CodeExt rest l) :
-    CodeExt rest (.identCheck top :: .catchPS :: l) := by
+theorem CodeExt.consPS {full rest l : List Instr} (top : Entry) (h : CodeExt full rest l) :
+    CodeExt full rest (.identCheck top :: .catchPS :: l) := by
   obtain ⟨p, s, rfl, hs, hp, hc⟩ := h
   refine ⟨.identCheck top :: .catchPS :: p, s, rfl, hs, ?_, ?_⟩
   · intro t ht; simp at ht; rcases ht with rfl | rfl | ht; rfl; rfl; exact hp t ht
   · simpa [closedB, isCatchPS] using hc
 
-theorem CodeExt.consPI {rest l : List Instr} (scr : Nat) (h : CodeExt rest l) :
-    CodeExt rest (.catchPI scr :: .countAndAct scr :: .endPI :: l) := by
+theorem CodeExt.consPI {full rest l : List Instr} (scr : Nat) (h : CodeExt full rest l) :
+    CodeExt full rest (.catchPI scr :: .countAndAct scr :: .endPI :: l) := by
   obtain ⟨p, s, rfl, hs, hp, hc⟩ := h
   refine ⟨.catchPI scr :: .countAndAct scr :: .endPI :: p, s, rfl, hs, ?_, ?_⟩
   · intro t ht; simp at ht; rcases ht with rfl | rfl | rfl | ht; rfl; rfl; rfl; exact hp t ht
   · simpa [closedB, isEndPI] using hc
 
-theorem CodeExt.suffix_rest {rest l : List Instr} (h : CodeExt rest l) : ∃ pushed suf, l = pushed ++ suf ∧ suf <:+ rest ∧
+theorem CodeExt.suffix_rest {full rest l : List Instr} (h : CodeExt full rest l) : ∃ pushed suf, l = pushed ++ suf ∧ suf <:+ rest ∧
     (∀ i ∈ pushed, softI i = true) ∧ closedB pushed = true := by
   obtain ⟨p, s, rfl, hs, hp, hc⟩ := h
   refine ⟨p, s, rfl, ?_, hp, hc⟩
-  rcases hs with rfl | rfl
+  rcases hs with rfl | ⟨_, _, rfl⟩
   · exact List.suffix_refl _
   · exact List.dropWhile_suffix _
 
@@ -167,7 +168,7 @@ theorem HExt.snoc {old new : List (Cls × HRef × Option Nat)} (n : Nat) (h : HE
 
 /-- `m` differs from `c` (whose head instruction has been removed, leaving `rest`) only "softly" -/
 structure Soft (rest : List Instr) (c m : Cfg) : Prop where
-  code : CodeExt rest m.code
+  code : CodeExt c.code rest m.code
   levels : m.L.levels = c.L.levels
   active : m.L.active = c.L.active
   runLoop : m.L.runLoop = c.L.runLoop
